@@ -250,6 +250,33 @@ fn book_script(r: &mut SimRng) -> Vec<PyCall> {
             }
         }
     }
+    // final segment (the clock cannot come back afterwards): the top of the clock's range - 2^63, 2^64-2, 2^64-1 are
+    // in-range values of the unsigned 64-bit clock - followed by placements that rest, trade and get recorded at that time
+    if g.r.chance(0.12) {
+        let t = *g.r.pick(&[1u64 << 63, u64::MAX - 1, u64::MAX, u64::MAX]);
+        if t > g.m.t {
+            g.m.set_time(t);
+            g.calls.push(call(o, "set_time", vec![json!(t)]));
+            for _ in 0..g.r.range(2, 5) {
+                let (bid, vol, trader, price) = g.new_order();
+                if let Some(p) = price {
+                    if g.m.has_resting_at(bid, p, g.m.t, None) {
+                        continue;
+                    }
+                }
+                if let Ok(id) = g.m.create(bid, vol, trader, price) {
+                    g.m.place(id);
+                }
+                g.calls.push(call(o, "place_order", vec![json!(bid), json!(vol), json!(trader), opt(price)]));
+            }
+            g.calls.push(call(o, "get_orders", vec![]));
+            g.calls.push(call(o, "get_trades", vec![]));
+            if g.r.chance(0.5) {
+                g.snaps += 1;
+                g.calls.push(call(o, "save_json_snapshot", vec![json!("@snap_1.json"), json!(false)]));
+            }
+        }
+    }
     g.calls
 }
 
